@@ -251,9 +251,10 @@ def specialise_single(eng: Engine, key: str, index_depth: int = 1):
     """Evaluate the single-field routine with the field-name parameter bound to a constant key
     (the descriptor then folds from the table) and a symbolic index stack of the given depth."""
     f = eng.repo.func(eng.single_field_routine)
-    params = f.params
-    bind = {params[1]: ("const", key)}
-    return eng.symeval(f.qualname, bind=bind)
+    cache = eng.__dict__.setdefault("_spec_cache", {})
+    if key not in cache:
+        cache[key] = eng.symeval(f.qualname, bind={f.params[1]: ("const", key)})
+    return cache[key]
 
 
 def derived_counts(eng: Engine, ctx: Ctx, rid: str, labels: bool = True) -> int:
@@ -289,17 +290,19 @@ def derived_counts(eng: Engine, ctx: Ctx, rid: str, labels: bool = True) -> int:
                       expected="one unconditional call after the store", found=f"{len(calls)} call(s)", **loc)
         else:
             ctx.check(not calls, rid, f.qualname, f"map builder not invoked at {src}", expected="no call", found=f"{len(calls)} call(s)", **loc)
-    # no other field triggers the map builder / counter stores: evaluate with a generic key
-    se = eng.symeval(f.qualname)
-    for e in se.effects if labels else ():
-        if e.kind == "call" and is_self_call(e.term, mb.name):
-            n += 1
-            keys = set()
-            for c, pol in e.guards:
-                if pol and c[0] == "cmp" and c[1] == "==" and is_const(c[3]):
-                    keys.add(c[3][1])
-            ncell_src = facts["derived_counters"].get(eng.tables.const.get("NCELL", "NCell"))
-            ctx.check(ncell_src in keys, rid, f.qualname, "map builder call site guarded by the cell-mask key", expected=f"anam == {ncell_src!r}", found=guard_text(e.guards)[:160], **eng.loc(f, e.node))
+    # no other field triggers the map builder: the routine specialised on each of the other data-field keys contains no call of it
+    if labels:
+        ncell_src = facts["derived_counters"].get(eng.tables.const.get("NCELL", "NCell"))
+        others = []
+        for key in eng.tables.fields:
+            if key == ncell_src:
+                continue
+            se = specialise_single(eng, key)
+            if any(e.kind == "call" and is_self_call(e.term, mb.name) for e in se.effects):
+                others.append(key)
+        n += 1
+        ctx.check(not others, rid, f.qualname, "map builder invoked for the cell mask only", expected=f"no call of {mb.name} when the routine is specialised on any key other than {ncell_src!r}",
+                  found=f"also called for {others[:5]}" if others else f"no call under the other {len(eng.tables.fields) - 1} keys", **eng.loc(f, f.node))
     return n
 
 
@@ -764,7 +767,8 @@ def read_primitive_contract(eng: Engine, ctx: Ctx, rid: str):
                 lo, ge, infeasible, lt, shi = _len_facts(conj, data, sizep)
                 if infeasible:
                     continue
-                ctx.check(lo >= 1 or (shi is not None and shi <= 0), rid, f.qualname, "normal return excludes an empty result for a non-empty request", expected="len(data) >= 1 on the path (or size <= 0)", found=f"len(data) >= {lo} under {guard_text(conj)[:100]}", **eng.loc(f, e.node))
+                # len(data) >= size on the path already excludes it: size >= 1 gives len >= 1
+                ctx.check(lo >= 1 or (shi is not None and shi <= 0) or ge, rid, f.qualname, "normal return excludes an empty result for a non-empty request", expected="len(data) >= 1 on the path (or size <= 0, or len(data) >= size)", found=f"len(data) >= {lo} under {guard_text(conj)[:100]}", **eng.loc(f, e.node))
                 ctx.check(ge, rid, f.qualname, "normal return excludes a short result", expected="len(data) >= size on the path", found=guard_text(conj)[:120], **eng.loc(f, e.node))
         if e.kind == "raise":
             n += 1
@@ -994,6 +998,14 @@ def _implies_ge1(conj, term):
             op = c[1] if pol else NEGATE[c[1]]
             k = c[3][1]
             if (op == ">" and k >= 0) or (op == ">=" and k >= 1) or (op == "!=" and k == 0):
+                return True
+        # len(x) < term (or term > len(x)): a length is never negative, so term >= 1
+        if c[0] == "cmp":
+            from ..symeval import NEGATE
+
+            op = c[1] if pol else NEGATE[c[1]]
+            is_len = lambda t: t[0] == "call" and t[2] == ("builtin", "len")  # noqa: E731
+            if (op == "<" and is_len(c[2]) and c[3] == term) or (op == ">" and c[2] == term and is_len(c[3])):
                 return True
     return False
 
@@ -1267,6 +1279,9 @@ def stub_path(eng: Engine, ctx: Ctx, rid: str):
         loc = eng.loc(stub, e.node)
         if e.kind == "raise":
             ctx.bad(rid, stub.qualname, norm(e.node), expected="stub never raises", found="raise", **loc)
+        elif e.kind == "store" and e.target and e.target[0] == "self" and not e.target[1].startswith("_"):
+            # `self.DF002 = self.identity` is the setattr form
+            ctx.check(e.target[1] == "DF002" and e.term == ("field", "identity"), rid, stub.qualname, norm(e.node), expected="self.DF002 = self.identity", found=f"{e.target[1]} = {show(e.term)[:60]}", **loc)
         elif e.kind == "store" and e.target and e.target[0] == "self":
             ctx.check(e.target[1].startswith("_") and is_const(e.term), rid, stub.qualname, norm(e.node), expected="private constant flag", found=show(e.term)[:60], **loc)
         elif e.kind == "call" and e.term[2] == ("builtin", "setattr"):
@@ -1277,7 +1292,7 @@ def stub_path(eng: Engine, ctx: Ctx, rid: str):
             ctx.check(ok, rid, stub.qualname, norm(e.node), expected="setattr(self, 'DF002', self.identity)", found=show(e.term)[:80], **loc)
         elif e.kind == "call":
             ctx.bad(rid, stub.qualname, norm(e.node), expected="no other call in the stub", found=show(e.term)[:80], **loc)
-    flags = {e.target[1] for e in ss.effects if e.kind == "store" and e.target and e.target[0] == "self"}
+    flags = {e.target[1] for e in ss.effects if e.kind == "store" and e.target and e.target[0] == "self" and e.target[1].startswith("_")}
     ser = eng.repo.func(f"{eng.message_cls}.serialize")
     sser = eng.symeval(ser.qualname)
     for e in sser.effects:
